@@ -416,7 +416,8 @@ def cmd_replay(prop, path):
     return 0 if r["outcome"] == "pass" else 1
 
 def all_props():
-    return sorted(os.path.basename(f)[:-5] for f in glob.glob(os.path.join(VERIF, "harness", "meta.d", "C*.json")) if not json.load(open(f)).get("disabled"))
+    enabled = open(os.path.join(VERIF, "harness", "ENABLED")).read().split()
+    return sorted(p for p in enabled if os.path.exists(os.path.join(VERIF, "harness", "meta.d", p + ".json")))
 
 def main():
     a = sys.argv[1:]
